@@ -406,6 +406,29 @@ def replay_wrap(inputs):
     exp = np.linalg.norm(cum @ lat.matrix, axis=-1).T
     if not np.allclose(dist, exp, atol=1e-9):
         bad.append('distances_from_base_position is not the Cartesian length of the cumulative displacement')
+    # one object, every query twice and interleaved with the constructors of derived trajectories: the reported quantities are properties of
+    # the trajectory, not of the call history
+    q = mk(coords)
+    first = {'positions': q.positions.copy(), 'displacements': q.displacements.copy(), 'cumulative_displacements': q.cumulative_displacements.copy(),
+             'distances_from_base_position': q.distances_from_base_position().copy()}
+    try:
+        q.apply_drift_correction()
+        q.center_of_mass()
+        q.filter('Li')
+        q.mean_squared_displacement()
+    except Exception as e:  # these belong to other properties; here only their side effects on q matter
+        bad.append(f'derived-trajectory call raised {type(e).__name__}: {e}')
+    again = {'cumulative_displacements': q.cumulative_displacements, 'distances_from_base_position': q.distances_from_base_position(),
+             'displacements': q.displacements, 'positions': q.positions}
+    strict = steps.size == 0 or steps.max() < 0.5 - 1e-9  # a step of exactly half a cell has two minimum images: either may be reported
+    for name in first:
+        if name != 'positions' and not strict:
+            continue
+        a_, b_ = first[name], np.asarray(again[name])
+        if name == 'positions' and a_.shape == b_.shape:
+            b_ = a_ + (((b_ - a_) + 0.5) % 1 - 0.5)  # wrapped view: compared modulo 1 (a value within rounding distance of a face may come back on either side)
+        if a_.shape != b_.shape or not np.allclose(a_, b_, atol=1e-9):
+            bad.append(f'{name} of the same object changed after other queries / derived-trajectory constructors were called on it')
     return {'reproduced': bool(bad), 'detail': f'values={vals}: ' + '; '.join(bad[:4])}
 
 
